@@ -173,6 +173,17 @@ def _case_adjust(ctx, rng, ds, shape, fam, vector, seen_profiles):
     feat = net_features(ds)
     e, scale, efam = gen_elev(rng, ds)
     dtype = rng.choice(ELEV_DTYPES if scale == 1 else [np.float32, np.float64])
+    unsigned = False
+    if scale == 1 and min(e) >= 0 and rng.random() < 0.2:
+        # unsigned elevation rasters (uint8/uint16/uint32 DEMs are common): the property clauses must hold;
+        # the Lean model is NOT compared here, because `abs(a - b)` on unsigned values wraps inside
+        # _adjust_elevation's cost comparison (the result is then another conforming profile, see DESIGN 8)
+        dtype = rng.choice([np.uint8, np.uint16, np.uint32])
+        unsigned = max(e) < 250
+        if not unsigned:
+            dtype = np.uint16
+            unsigned = True
+        ctx.count("adjust:unsigned-elevation")
     idt = rng.choice(IDX_DTYPES)
     try:
         flw = mk_vector(ds, idt) if vector else mk_raster(ds, shape, idt)
@@ -224,7 +235,7 @@ def _case_adjust(ctx, rng, ds, shape, fam, vector, seen_profiles):
             fs.append({"kind": "spec", "what": "dem_adjust is not idempotent", "impl": impl, "second": ints(np.asarray(out2) * scale)})
         if not exact:
             fs.append({"kind": "model", "what": "dem_adjust produced a value outside the scaled grid", "impl": np.asarray(out).ravel().tolist()})
-        if impl != a["model"]:
+        if impl != a["model"] and not unsigned:
             fs.append({"kind": "model", "what": "dem_adjust: implementation != Lean model", "impl": impl, "model": a["model"]})
         return fs
 
@@ -233,6 +244,8 @@ def _case_adjust(ctx, rng, ds, shape, fam, vector, seen_profiles):
         ctx.count("adjust:input-conforming")
     # the streamline profiles actually used
     for inp, outp in plog.log:
+        if unsigned:
+            break
         pin, ok1 = _scaled_ints(inp, scale)
         key = (tuple(pin), np.dtype(dtype).name)
         if key in seen_profiles or len(seen_profiles) > (3000 if ctx.tier == "quick" else 30000):
